@@ -4,6 +4,7 @@ use std::path::Path;
 use action::all_action_types;
 use action::ActionContext;
 use action::ActionProvider;
+use action::{Change, Update};
 
 use command::CommandType;
 use command::GenerateCommand;
@@ -601,7 +602,22 @@ impl Server {
             })
             .unwrap();
 
-        let changes = action_provider.changes(target_node_id, self).unwrap();
+        // actions render the rewritten note from its tree; its front matter is kept by the graph
+        let changes = action_provider
+            .changes(target_node_id, self)
+            .unwrap()
+            .into_iter()
+            .map(|change| match change {
+                Change::Update(update) => Change::Update(Update {
+                    markdown: self
+                        .database
+                        .graph()
+                        .with_front_matter(&update.key, update.markdown),
+                    key: update.key,
+                }),
+                change => change,
+            })
+            .collect_vec();
 
         let mut action = code_action.clone();
         action.edit = Some(WorkspaceEdit {
